@@ -470,11 +470,22 @@ def rule_accum(ctx):
                     and isinstance(args[0], (ast.Name, ast.Attribute)):
                 r = ctx.cg.resolve_name_expr(sc, args[0])
                 args = args[1:]
+            if r is None and args is not None and len(args) == len(c.args):
+                # self.helper(...) / cls.helper(...): the call graph's callee
+                eds = [e for e in ctx.cg._resolve_callee(sc, c.func, c, 'call')
+                       if not e.is_ext and e.precision == 'exact']
+                if len(eds) == 1:
+                    r = ('func', eds[0].dst)
             if not (r and r[0] == 'func'):
                 continue
             g = r[1]
-            bound = [(g.params[i], a) for i, a in enumerate(args)
-                     if i < len(g.params)]
+            gparams = list(g.params)
+            if g.cls is not None and g.parent is None and gparams and not any(
+                    isinstance(d, ast.Name) and d.id == 'staticmethod'
+                    for d in g.decorators()):
+                gparams = gparams[1:]  # bound method: self / cls is implicit
+            bound = [(gparams[i], a) for i, a in enumerate(args)
+                     if i < len(gparams)]
             bound += [(k.arg, k.value) for k in c.keywords
                       if k.arg in g.all_params]
             for prm, a in bound:
@@ -581,5 +592,6 @@ def _guarded_new_key(g, assign, prm, target):
 
 
 def run(ctx):
-    return [rule_lazy(ctx), rule_err(ctx), rule_skip(ctx), rule_ord(ctx),
-            rule_fresh(ctx), rule_accum(ctx)]
+    S = ctx.soft
+    return [S(rule_lazy, ctx), S(rule_err, ctx), S(rule_skip, ctx), S(rule_ord, ctx),
+            S(rule_fresh, ctx), S(rule_accum, ctx)]
